@@ -322,6 +322,22 @@ impl Parser {
         let mut ident = Self::ident(ident_node).to_err_vec()?;
         ident.mark_const();
 
+        // a class is stored in the bytecode file as a function named after the class; the names
+        // `__module__` (module entry) and `__fn<N>` (function literals) are dealt out by the compiler.
+        {
+            let name = ident.name();
+            let is_generated_fn_name = name
+                .strip_prefix("__fn")
+                .is_some_and(|rest| !rest.is_empty() && rest.bytes().all(|b| b.is_ascii_digit()));
+            if name == "__module__" || is_generated_fn_name {
+                return Err(vec![new_err(
+                    ident_span,
+                    &input.user_data().get_source_file_name(),
+                    format!("`{name}` is a name the compiler generates for the functions of a file, and cannot name a class"),
+                )]);
+            }
+        }
+
         let has_been_declared = input.user_data().get_ident_from_name_local(ident.name());
 
         if let Some(has_been_declared) = has_been_declared {
